@@ -46,10 +46,17 @@ class Evaluator(object):
         buf = io.StringIO()
         ctx = contextlib.redirect_stdout(buf) if quiet else \
             contextlib.nullcontext()
-        with ctx:
-            self.ae = AccelerationEval(arrays, equations, kernel)
-            self.compiler = SPHCompiler(self.ae, integrator)
-            self.compiler.compile()
+        try:
+            with ctx:
+                self.ae = AccelerationEval(arrays, equations, kernel)
+                self.compiler = SPHCompiler(self.ae, integrator)
+                self.compiler.compile()
+        except BaseException as e:
+            try:
+                e.log = buf.getvalue()[-6000:]
+            except Exception:
+                pass
+            raise
         self.integrator = integrator
         self.log = buf.getvalue()
         self.set_nnps(nnps_cls or N.LinkedListNNPS, nnps_kw, domain)
